@@ -16,6 +16,9 @@ func targetFor(data []byte, mode string) uint64 {
 	if mode == "slow" {
 		return 19683 / ln
 	}
+	if mode == "tiny" { // l*x about 54: borderline hashes (3 zeros) in almost every batch, about half of them qualify
+		return 54 / ln
+	}
 	if mode == "slower" {
 		return 177147 / ln
 	}
